@@ -375,6 +375,29 @@ Proof.
 Qed.
 
 (* ---- C16-a: the unchanged code violates the property inside the class *)
+Lemma descr_beq_refl d : descr_beq d d = true.
+Proof.
+  unfold descr_beq. rewrite !andb_true_iff. repeat split.
+  - apply uid_eqb_eq; reflexivity.
+  - apply uid_eqb_eq; reflexivity.
+  - apply Nat.eqb_refl.
+  - apply (dict_beq_eq _ (prod_beq_eq _ _ (option_beq_eq _ Nat.eqb_eq) ext_eqb_eq)); reflexivity.
+  - apply (dict_beq_eq _ (list_beq_eq _ Nat.eqb_eq)); reflexivity.
+  - apply (dict_beq_eq _ (option_beq_eq _ Z.eqb_eq)); reflexivity.
+Qed.
+
+Lemma events_use_latest_reflect rest : forall pre,
+  events_use_latest (pre ++ rest) -> events_use_latest_b pre rest = true.
+Proof.
+  induction rest as [|x rest IH]; intros pre H; [reflexivity|].
+  cbn [events_use_latest_b]. apply andb_true_iff. split.
+  - destruct x; try reflexivity.
+    destruct (H pre u de seq data filled rest eq_refl) as (d & Hin & Hu & Hl).
+    apply existsb_exists. exists (DDescr d). split; [exact Hin|].
+    rewrite Hu, Hl. cbn. rewrite descr_beq_refl. destruct de; cbn; rewrite Nat.eqb_refl; reflexivity.
+  - apply IH. rewrite <- app_assoc. exact H.
+Qed.
+
 Definition c16a_devs : dict devspec :=
   [(1, mkDev true true true false false false false false false [(1, ExtNone)] [])].
 Definition c16a_hist : list op :=
@@ -386,13 +409,8 @@ Lemma c16a_refuted :
 Proof.
   exists (env_of c16a_devs), false, false, c16a_hist.
   split; [reflexivity|]. split; [vm_compute; reflexivity|].
-  intros H.
-  set (tr := trace (env_of c16a_devs) (init false false) c16a_hist) in *.
-  assert (T : tr = firstn 3 tr ++ nth 3 tr (DStart (UGen 0)) :: skipn 4 tr) by (vm_compute; reflexivity).
-  destruct (nth 3 tr (DStart (UGen 0))) as [| |u de seq data fl| | | | |] eqn:En;
-    try (vm_compute in En; discriminate En).
-  destruct (H _ _ _ _ _ _ _ T) as (d & Hin & Hu & Hl). clear T H.
-  vm_compute in Hin. destruct Hin as [Hd|[Hd|[Hd|[]]]]; try discriminate Hd;
-    inversion Hd; subst d; vm_compute in Hl; try discriminate Hl;
-    cbn in Hu; subst de; vm_compute in En; discriminate En.
+  intros H. apply (events_use_latest_reflect _ []) in H.
+  assert (F : events_use_latest_b [] (trace (env_of c16a_devs) (init false false) c16a_hist) = false)
+    by (vm_compute; reflexivity).
+  rewrite F in H. discriminate H.
 Qed.
